@@ -1,3 +1,280 @@
 package main
 
-type effectsInfo struct{}
+// E5 effects — who writes which memory. Flow-insensitive, interprocedural.
+// For every Store/MapUpdate (and the listed external writers) the root of the
+// address is found by walking FieldAddr/IndexAddr/load chains back to an Alloc
+// (fresh, local), a Global, a Parameter, a FreeVar (resolved to the enclosing
+// function's cell) or a call result. Per function: the set of parameters it
+// may write through, directly or by passing the parameter on to a callee that
+// writes through it (fixpoint).
+
+import (
+	"go/token"
+	"go/types"
+	"sort"
+
+	"golang.org/x/tools/go/ssa"
+)
+
+type writeSite struct {
+	Fn   *ssa.Function
+	In   ssa.Instruction
+	Root ssa.Value
+	Path []string
+	Kind string // store | mapupdate | append-spare | external
+}
+
+type effectsInfo struct {
+	Writes        []writeSite                       // every write with its root
+	ParamWritten  map[*ssa.Parameter]ssa.Instruction // parameters written through (witness)
+	FreeVarWrites map[*ssa.FreeVar]ssa.Instruction
+}
+
+// valueRoot is addrRoot, additionally looking through Phi (first edge with a
+// non-local root wins), Extract and MakeInterface.
+func valueRoot(v ssa.Value) (ssa.Value, []string) {
+	r, path := addrRoot(v)
+	for i := 0; i < 16; i++ {
+		switch x := r.(type) {
+		case *ssa.MakeInterface:
+			r2, p2 := addrRoot(x.X)
+			r, path = r2, append(p2, path...)
+			continue
+		case *ssa.ChangeInterface:
+			r2, p2 := addrRoot(x.X)
+			r, path = r2, append(p2, path...)
+			continue
+		case *ssa.TypeAssert:
+			r2, p2 := addrRoot(x.X)
+			r, path = r2, append(p2, path...)
+			continue
+		case *ssa.Phi:
+			// prefer a non-local root
+			var pick ssa.Value
+			for _, e := range x.Edges {
+				er, _ := valueRoot0(e, 4)
+				switch er.(type) {
+				case *ssa.Parameter, *ssa.Global, *ssa.FreeVar:
+					pick = e
+				}
+			}
+			if pick == nil {
+				return r, path
+			}
+			r2, p2 := addrRoot(pick)
+			r, path = r2, append(p2, path...)
+			continue
+		}
+		break
+	}
+	return r, path
+}
+
+func valueRoot0(v ssa.Value, depth int) (ssa.Value, []string) {
+	if depth == 0 {
+		return v, nil
+	}
+	r, p := addrRoot(v)
+	if phi, ok := r.(*ssa.Phi); ok && len(phi.Edges) > 0 {
+		return valueRoot0(phi.Edges[0], depth-1)
+	}
+	return r, p
+}
+
+// externalWriters: external callees that write through an argument (index in
+// the full argument list, receiver first for methods).
+var externalWriters = map[string][]int{
+	"sort.Strings": {0}, "sort.Slice": {0}, "sort.SliceStable": {0}, "sort.Sort": {0}, "sort.Ints": {0},
+	"encoding/xml.Unmarshal":                  {1},
+	"(*encoding/xml.Decoder).Decode":          {1},
+	"(*encoding/xml.Decoder).DecodeElement":   {1},
+	"encoding/json.Unmarshal":                 {1},
+	"(*net/http.Request).SetBasicAuth":        {0},
+	"(net/http.Header).Set":                   {0},
+	"(net/http.Header).Add":                   {0},
+	"(net/http.Header).Del":                   {0},
+	"(*bytes.Buffer).Write":                   {0},
+	"(*bytes.Buffer).WriteString":             {0},
+	"(*net/url.URL).UnmarshalBinary":          {0},
+	"(github.com/emersion/go-vcard.Card).Set": {0}, "(github.com/emersion/go-vcard.Card).Add": {0},
+	"(github.com/emersion/go-vcard.Card).SetValue": {0}, "(github.com/emersion/go-vcard.Card).AddValue": {0},
+	"(github.com/emersion/go-ical.Props).Set": {0}, "(github.com/emersion/go-ical.Props).Add": {0}, "(github.com/emersion/go-ical.Props).Del": {0},
+	"(github.com/emersion/go-ical.Props).SetText": {0}, "(github.com/emersion/go-ical.Props).SetDateTime": {0},
+}
+
+func (c *Ctx) Effects() *effectsInfo {
+	if c.eff != nil {
+		return c.eff
+	}
+	p := c.P
+	ei := &effectsInfo{ParamWritten: map[*ssa.Parameter]ssa.Instruction{}, FreeVarWrites: map[*ssa.FreeVar]ssa.Instruction{}}
+	var fns []*ssa.Function
+	for _, fn := range p.ModFns {
+		if len(fn.Blocks) > 0 {
+			fns = append(fns, fn)
+		}
+	}
+	record := func(fn *ssa.Function, in ssa.Instruction, addr ssa.Value, kind string) {
+		root, path := valueRoot(addr)
+		ei.Writes = append(ei.Writes, writeSite{fn, in, root, path, kind})
+	}
+	for _, fn := range fns {
+		eachInstr(fn, func(_ *ssa.BasicBlock, in ssa.Instruction) {
+			switch x := in.(type) {
+			case *ssa.Store:
+				record(fn, in, x.Addr, "store")
+			case *ssa.MapUpdate:
+				record(fn, in, x.Map, "mapupdate")
+			case ssa.CallInstruction:
+				cc := x.Common()
+				name := calleeName(cc)
+				if idxs, ok := externalWriters[name]; ok {
+					var all []ssa.Value
+					if cc.IsInvoke() {
+						all = append(all, cc.Value)
+					}
+					all = append(all, cc.Args...)
+					for _, i := range idxs {
+						if i < len(all) {
+							record(fn, in, all[i], "external:"+name)
+						}
+					}
+				}
+				if bi, ok := cc.Value.(*ssa.Builtin); ok {
+					switch bi.Name() {
+					case "copy", "delete", "clear":
+						if len(cc.Args) > 0 {
+							record(fn, in, cc.Args[0], "builtin:"+bi.Name())
+						}
+					}
+				}
+			}
+		})
+	}
+	// fixpoint: parameters written through
+	changed := true
+	markRoot := func(root ssa.Value, in ssa.Instruction) {
+		switch r := root.(type) {
+		case *ssa.Parameter:
+			if ei.ParamWritten[r] == nil {
+				ei.ParamWritten[r] = in
+				changed = true
+			}
+		case *ssa.FreeVar:
+			if ei.FreeVarWrites[r] == nil {
+				ei.FreeVarWrites[r] = in
+				changed = true
+			}
+		}
+	}
+	for _, w := range ei.Writes {
+		markRoot(w.Root, w.In)
+	}
+	cg := c.CG()
+	for changed {
+		changed = false
+		for _, fn := range fns {
+			eachCall(fn, func(site ssa.CallInstruction) {
+				cc := site.Common()
+				var all []ssa.Value
+				if cc.IsInvoke() {
+					all = append(all, cc.Value)
+				}
+				all = append(all, cc.Args...)
+				var targets []*ssa.Function
+				if f := cc.StaticCallee(); f != nil {
+					targets = append(targets, f)
+				} else {
+					for _, e := range cg.Out[fn] {
+						if e.Site == site && e.Kind == "dynamic" && p.InModule(e.Callee) {
+							targets = append(targets, e.Callee)
+						}
+					}
+				}
+				for _, t := range targets {
+					if !p.InModule(t) {
+						continue
+					}
+					for i, a := range all {
+						if i >= len(t.Params) || ei.ParamWritten[t.Params[i]] == nil {
+							continue
+						}
+						root, _ := valueRoot(a)
+						markRoot(root, site)
+					}
+					// closures: free variables written inside
+					if mc, ok := cc.Value.(*ssa.MakeClosure); ok {
+						cf := mc.Fn.(*ssa.Function)
+						for i, b := range mc.Bindings {
+							if i < len(cf.FreeVars) && ei.FreeVarWrites[cf.FreeVars[i]] != nil {
+								root, _ := valueRoot(b)
+								markRoot(root, site)
+							}
+						}
+					}
+				}
+			})
+			// closure creation: a closure that writes a captured variable
+			// writes the enclosing function's cell
+			eachInstr(fn, func(_ *ssa.BasicBlock, in ssa.Instruction) {
+				mc, ok := in.(*ssa.MakeClosure)
+				if !ok {
+					return
+				}
+				cf := mc.Fn.(*ssa.Function)
+				for i, b := range mc.Bindings {
+					if i < len(cf.FreeVars) && ei.FreeVarWrites[cf.FreeVars[i]] != nil {
+						root, _ := valueRoot(b)
+						markRoot(root, in)
+					}
+				}
+			})
+		}
+	}
+	sort.SliceStable(ei.Writes, func(i, j int) bool { return fnKey(ei.Writes[i].Fn) < fnKey(ei.Writes[j].Fn) })
+	c.eff = ei
+	return ei
+}
+
+// rootKind classifies a write root.
+func rootKind(root ssa.Value) string {
+	switch r := root.(type) {
+	case *ssa.Alloc:
+		return "local"
+	case *ssa.MakeMap, *ssa.MakeSlice, *ssa.MakeChan:
+		return "local"
+	case *ssa.Global:
+		return "global"
+	case *ssa.Parameter:
+		return "param"
+	case *ssa.FreeVar:
+		return "freevar"
+	case *ssa.Call:
+		return "call-result"
+	case *ssa.Extract:
+		return "call-result"
+	case *ssa.Const:
+		return "const"
+	case *ssa.UnOp:
+		if r.Op == token.MUL {
+			return "loaded"
+		}
+	}
+	return "other"
+}
+
+func paramIndex(fn *ssa.Function, prm *ssa.Parameter) int {
+	for i, p := range fn.Params {
+		if p == prm {
+			return i
+		}
+	}
+	return -1
+}
+
+func recvNamed(fn *ssa.Function) *types.Named {
+	if fn.Signature.Recv() == nil {
+		return nil
+	}
+	return namedOf(fn.Signature.Recv().Type())
+}
